@@ -408,7 +408,7 @@ Record GInvX (g : group) (L : sid) (dc : bytes -> Z) (dt : Z) : Prop := {
   gi_min : g_min g = pel_min (g_by_id g);
   gi_max : g_max g = pel_max (g_by_id g)
 }.
-Definition GInv (g : group) : Prop := GInvX g (g_last g) zero_off 0.
+Definition GInvC (g : group) : Prop := GInvX g (g_last g) zero_off 0.
 
 Lemma GInvX_ext g L dc dc' dt dt' : (forall c, dc c = dc' c) -> dt = dt' -> GInvX g L dc dt -> GInvX g L dc' dt'.
 Proof.
@@ -421,7 +421,7 @@ Proof.
   eapply Forall_impl; [|exact H2]. intros p Hp. cbv beta in Hp. eapply sid_le_trans; eassumption.
 Qed.
 
-Lemma GInv_mk st : GInv (mk_group st).
+Lemma GInvC_mk st : GInvC (mk_group st).
 Proof.
   split; cbn.
   - apply PInv_nil.
@@ -435,6 +435,63 @@ Proof.
   - reflexivity.
 Qed.
 
+Lemma GInvC_new : GInvC new_group.
+Proof. apply GInvC_mk. Qed.
+
+(** The agreement invariant proper: the by-ID map is strictly sorted; each consumer's ID
+    vector is duplicate-free and holds exactly the IDs the map assigns to that consumer; no
+    empty vector is stored; every owner is a registered consumer whose counter equals the
+    length of its vector; total = size of the map; consumer counter = number of consumers
+    (names distinct); the cached min/max are the map's bounds.  Nothing is said about the
+    cursor: XGROUP SETID may put it anywhere. *)
+Record GInv (g : group) : Prop := {
+  ga_pel : PInv (g_by_id g) (g_by_consumer g);
+  ga_keys : NoDup (map fst (g_consumers g));
+  ga_counts : forall c n, alookup c (g_consumers g) = Some n -> n = len (bcg c (g_by_consumer g));
+  ga_owners : forall c id, owner (g_by_id g) id = Some c -> alookup c (g_consumers g) <> None;
+  ga_total : g_total g = len (g_by_id g);
+  ga_ncons : g_ncons g = len (g_consumers g);
+  ga_min : g_min g = pel_min (g_by_id g);
+  ga_max : g_max g = pel_max (g_by_id g)
+}.
+(** no pending ID above the cursor (holds as long as SETID does not move the cursor back) *)
+Definition BelowCursor (g : group) : Prop := Forall (fun p => sid_le (p_id p) (g_last g)) (g_by_id g).
+
+Lemma GInv_of_X g L : GInvX g L zero_off 0 -> GInv g.
+Proof.
+  intros [H1 H2 H3 H4 H5 H6 H7 H8 H9]. split; try assumption.
+  - intros c n Hn. specialize (H4 c n Hn). unfold zero_off in H4. lia.
+  - lia.
+Qed.
+Lemma GInvX_of g L : GInv g -> Forall (fun p => sid_le (p_id p) L) (g_by_id g) -> GInvX g L zero_off 0.
+Proof.
+  intros [H1 H3 H4 H5 H6 H7 H8 H9] H2. split; try assumption.
+  - intros c n Hn. specialize (H4 c n Hn). unfold zero_off. lia.
+  - lia.
+Qed.
+Lemma GInvC_iff g : GInvC g <-> GInv g /\ BelowCursor g.
+Proof.
+  split.
+  - intros H. split; [exact (GInv_of_X _ _ H) | exact (gi_cursor _ _ _ _ H)].
+  - intros [H1 H2]. apply GInvX_of; assumption.
+Qed.
+Lemma sid_bound (l : list sid) : exists L, Forall (fun i => sid_le i L) l.
+Proof.
+  induction l as [|i l [L HL]]; [exists sid_zero; constructor|].
+  destruct (sid_ltb L i) eqn:E.
+  - apply sid_ltb_lt in E. exists i. constructor; [apply sid_le_refl|].
+    eapply Forall_impl; [|exact HL]. intros a Ha. cbv beta in Ha. left. eapply sid_le_lt_trans; eassumption.
+  - apply sid_ltb_nlt in E. exists L. constructor; assumption.
+Qed.
+(** a bound of the pending IDs and of any further list of IDs *)
+Lemma GInv_bound g ids : GInv g -> exists L, GInvX g L zero_off 0 /\ Forall (fun i => sid_le i L) ids.
+Proof.
+  intros Hg. destruct (sid_bound (map p_id (g_by_id g) ++ ids)) as [L HL]. apply Forall_app in HL as [H1 H2].
+  exists L. split; [|exact H2]. apply GInvX_of; [exact Hg|].
+  apply (proj1 (@Forall_map _ _ p_id (fun i => sid_le i L) (g_by_id g))). exact H1.
+Qed.
+Lemma GInv_mk st : GInv (mk_group st).
+Proof. exact (GInv_of_X _ _ (GInvC_mk st)). Qed.
 Lemma GInv_new : GInv new_group.
 Proof. apply GInv_mk. Qed.
 
@@ -539,46 +596,223 @@ Proof. unfold len. rewrite map_length. reflexivity. Qed.
 Lemma len_upd_count c f cs : len (upd_count c f cs) = len cs.
 Proof. rewrite <- (len_map_fst (upd_count c f cs)), keys_upd_count, len_map_fst. reflexivity. Qed.
 
-(** add_pending with fresh IDs above the cursor keeps the invariant and moves the cursor *)
-Theorem add_pending_inv now g c ids lastid : GInv g -> NoDup ids ->
-  (forall id, In id ids -> sid_lt (g_last g) id /\ sid_le id lastid) ->
-  rev ids = lastid :: tl (rev ids) ->
-  GInv (g_add_pending now g c ids) /\ g_last (g_add_pending now g c ids) = lastid /\
-  (forall id, owner (g_by_id (g_add_pending now g c ids)) id = if sid_mem id ids then Some c else owner (g_by_id g) id).
+(** ---- add_pending (after the repair 92eb72a) ----
+    Inside the loop the previous owners' counters, the reader's counter and the total lag
+    behind; [cnt o prev] = how often [o] was recorded as a previous owner. *)
+Definition cnt (o : bytes) (prev : list bytes) : Z := len (filter (beq o) prev).
+Lemma cnt_nil o : cnt o [] = 0.
+Proof. reflexivity. Qed.
+Lemma cnt_snoc o prev x : cnt o (prev ++ [x]) = cnt o prev + (if beq o x then 1 else 0).
+Proof. unfold cnt. rewrite filter_app, len_app. cbn [filter]. destruct (beq o x); rewrite ?len_cons, ?len_nil; lia. Qed.
+Lemma cnt_cons o prev x : cnt o (x :: prev) = (if beq o x then 1 else 0) + cnt o prev.
+Proof. unfold cnt. cbn [filter]. destruct (beq o x); rewrite ?len_cons; lia. Qed.
+Lemma cnt_nonneg o prev : 0 <= cnt o prev.
+Proof. apply len_nonneg. Qed.
+
+Lemma GInvX_set_last g L dc dt i : GInvX g L dc dt -> GInvX (set_last g i) L dc dt.
+Proof. intros [H1 H2 H3 H4 H5 H6 H7 H8 H9]. split; cbn [set_last g_by_id g_by_consumer g_consumers g_total g_ncons g_min g_max]; assumption. Qed.
+
+(** PendingEntryList::remove_entry alone: the owner's counter and the total now lag *)
+Lemma remove_entry_raw_inv g L dc dt id e g' : GInvX g L dc dt ->
+  pel_remove_entry g id = (Some e, g') ->
+  GInvX g' L (fun o => if beq o (p_consumer e) then dc o - 1 else dc o) (dt - 1) /\
+  pel_find id (g_by_id g) = Some e /\ g_by_id g' = pel_remove id (g_by_id g) /\
+  g_consumers g' = g_consumers g /\ g_total g' = g_total g /\ g_last g' = g_last g /\ g_ncons g' = g_ncons g.
 Proof.
-  intros Hg Hnd Hids Hlast. unfold g_add_pending.
-  destruct (create_consumer_inv g (g_last g) zero_off 0 c Hg eq_refl) as (Hg1 & Hc1 & Hb1 & Hbc1 & Hl1 & _).
+  intros Hg. unfold pel_remove_entry. destruct (pel_find id (g_by_id g)) as [e0|] eqn:Ef; [|discriminate].
+  intros H; inversion H; subst e0 g'; clear H. split; [|cbn; auto 10].
+  destruct Hg as [H1 H2 H3 H4 H5 H6 H7 H8 H9]. unfold set_pel.
+  split; cbn [g_by_id g_by_consumer g_consumers g_total g_ncons g_min g_max]; try reflexivity; try assumption.
+  - apply PInv_remove; assumption.
+  - apply Forall_pel_remove; assumption.
+  - intros c n Hn. rewrite bcg_drop. destruct (beq c (p_consumer e)) eqn:E; [|apply H4; assumption].
+    apply beq_eq in E. subst c. specialize (H4 _ _ Hn).
+    assert (Hin : In id (bcg (p_consumer e) (g_by_consumer g))).
+    { apply (pi_owner _ _ H1). unfold owner. rewrite Ef. reflexivity. }
+    rewrite (len_drop_id id _ (pi_nodup _ _ H1 _) Hin). lia.
+  - intros c id'. rewrite (owner_remove _ _ _ (pi_sorted _ _ H1)).
+    destruct (sid_eqb id' id); [discriminate|]. apply H5.
+  - rewrite len_pel_remove, Ef. lia.
+Qed.
+
+Lemma filter_map_ext_in {A B} (f g : A -> option B) l : (forall x, In x l -> f x = g x) -> filter_map f l = filter_map g l.
+Proof.
+  induction l as [|x l IH]; intros H; cbn [filter_map]; [reflexivity|].
+  rewrite (H x (or_introl eq_refl)), IH; [reflexivity|]. intros y Hy. apply H. right; assumption.
+Qed.
+
+Lemma add_pending_loop now c : forall ids g prev L k,
+  GInvX g L (fun o => (if beq o c then k else 0) - cnt o prev) (k - len prev) ->
+  NoDup ids -> (forall id, In id ids -> sid_le id L) -> alookup c (g_consumers g) <> None ->
+  let r := fold_left (add_pending_one now c) ids (g, prev) in
+  GInvX (fst r) L (fun o => (if beq o c then k + len ids else 0) - cnt o (snd r)) (k + len ids - len (snd r)) /\
+  g_consumers (fst r) = g_consumers g /\ g_total (fst r) = g_total g /\ g_last (fst r) = g_last g /\
+  g_ncons (fst r) = g_ncons g /\
+  snd r = prev ++ filter_map (owner (g_by_id g)) ids /\
+  (forall id, owner (g_by_id (fst r)) id = if sid_mem id ids then Some c else owner (g_by_id g) id).
+Proof.
+  induction ids as [|id ids IH]; intros g prev L k Hg Hnd Hle Hc; cbn [fold_left]; cbn zeta.
+  - cbn [fst snd filter_map sid_mem]. rewrite app_nil_r, len_nil.
+    split; [eapply GInvX_ext; [| |exact Hg]; [intros o; cbv beta; destruct (beq o c); lia | lia]|]. auto 10.
+  - inversion Hnd as [|? ? Hnin Hnd']; subst.
+    assert (Hsorted : psorted (g_by_id g)) by (apply (pi_sorted _ _ (gi_pel _ _ _ _ Hg))).
+    set (p := {| p_id := id; p_consumer := c; p_time := now; p_count := 1 |}).
+    assert (Estep : add_pending_one now c (g, prev) id
+                    = match pel_remove_entry g id with
+                      | (old, g') => (pel_add_entry g' p, match old with Some e => prev ++ [p_consumer e] | None => prev end)
+                      end) by reflexivity.
+    rewrite Estep. clear Estep.
+    destruct (pel_remove_entry g id) as [[e|] g'] eqn:E.
+    + destruct (remove_entry_raw_inv g L _ _ id e g' Hg E) as (Hg' & Hf & Hb' & Hcs' & Ht' & Hl' & Hn').
+      assert (Hnone : owner (g_by_id g') id = None).
+      { rewrite Hb', (owner_remove _ _ _ Hsorted), sid_eqb_refl. reflexivity. }
+      assert (Hc' : alookup c (g_consumers g') <> None) by (rewrite Hcs'; exact Hc).
+      pose proof (add_entry_inv g' L _ _ id c now 1 Hg' Hnone (Hle id (or_introl eq_refl)) Hc') as Hg2. fold p in Hg2.
+      set (g2 := pel_add_entry g' p) in *.
+      assert (Ho2 : forall id', owner (g_by_id g2) id' = if sid_eqb id' id then Some c else owner (g_by_id g) id').
+      { intros id'. subst g2. unfold pel_add_entry, set_pel. cbn [g_by_id]. rewrite owner_insert. cbn [p p_id p_consumer].
+        destruct (sid_eqb id' id) eqn:Ei; [reflexivity|]. rewrite Hb', (owner_remove _ _ _ Hsorted), Ei. reflexivity. }
+      assert (Hg2' : GInvX g2 L (fun o => (if beq o c then k + 1 else 0) - cnt o (prev ++ [p_consumer e])) (k + 1 - len (prev ++ [p_consumer e]))).
+      { eapply GInvX_ext; [| |exact Hg2].
+        - intros o. cbv beta. rewrite cnt_snoc. destruct (beq o c); destruct (beq o (p_consumer e)); lia.
+        - rewrite len_app, len_cons, len_nil. lia. }
+      assert (Hc2 : alookup c (g_consumers g2) <> None) by (subst g2; cbn; exact Hc').
+      specialize (IH g2 (prev ++ [p_consumer e]) L (k + 1) Hg2' Hnd' (fun i Hi => Hle i (or_intror Hi)) Hc2). cbn zeta in IH.
+      destruct IH as (I1 & I2 & I3 & I4 & I5 & I6 & I7).
+      split; [eapply GInvX_ext; [| |exact I1]; [intros o; cbv beta; rewrite len_cons; destruct (beq o c); lia | rewrite len_cons; lia]|].
+      split; [rewrite I2; subst g2; cbn; exact Hcs'|]. split; [rewrite I3; subst g2; cbn; exact Ht'|].
+      split; [rewrite I4; subst g2; cbn; exact Hl'|]. split; [rewrite I5; subst g2; cbn; exact Hn'|]. split.
+      * rewrite I6, <- app_assoc. cbn [app filter_map]. unfold owner at 2. rewrite Hf. cbn [option_map]. f_equal. f_equal.
+        apply filter_map_ext_in. intros id' Hin. rewrite Ho2. destruct (sid_eqb id' id) eqn:Ei; [|reflexivity].
+        apply sid_eqb_eq in Ei. subst id'. contradiction.
+      * intros id'. rewrite I7, Ho2. cbn [sid_mem]. destruct (sid_eqb id' id); cbn [orb]; [destruct (sid_mem id' ids); reflexivity | reflexivity].
+    + assert (Hf : pel_find id (g_by_id g) = None /\ g' = g).
+      { unfold pel_remove_entry in E. destruct (pel_find id (g_by_id g)); [discriminate|]. inversion E; auto. }
+      destruct Hf as [Hf ->].
+      assert (Hnone : owner (g_by_id g) id = None) by (unfold owner; rewrite Hf; reflexivity).
+      pose proof (add_entry_inv g L _ _ id c now 1 Hg Hnone (Hle id (or_introl eq_refl)) Hc) as Hg2. fold p in Hg2.
+      set (g2 := pel_add_entry g p) in *.
+      assert (Ho2 : forall id', owner (g_by_id g2) id' = if sid_eqb id' id then Some c else owner (g_by_id g) id').
+      { intros id'. subst g2. unfold pel_add_entry, set_pel. cbn [g_by_id]. rewrite owner_insert. reflexivity. }
+      assert (Hg2' : GInvX g2 L (fun o => (if beq o c then k + 1 else 0) - cnt o prev) (k + 1 - len prev)).
+      { eapply GInvX_ext; [| |exact Hg2]; [intros o; cbv beta; destruct (beq o c); lia | lia]. }
+      assert (Hc2 : alookup c (g_consumers g2) <> None) by (subst g2; cbn; exact Hc).
+      specialize (IH g2 prev L (k + 1) Hg2' Hnd' (fun i Hi => Hle i (or_intror Hi)) Hc2). cbn zeta in IH.
+      destruct IH as (I1 & I2 & I3 & I4 & I5 & I6 & I7).
+      split; [eapply GInvX_ext; [| |exact I1]; [intros o; cbv beta; rewrite len_cons; destruct (beq o c); lia | rewrite len_cons; lia]|].
+      split; [rewrite I2; reflexivity|]. split; [rewrite I3; reflexivity|]. split; [rewrite I4; reflexivity|].
+      split; [rewrite I5; reflexivity|]. split.
+      * rewrite I6. cbn [filter_map]. rewrite Hnone. f_equal.
+        apply filter_map_ext_in. intros id' Hin. rewrite Ho2. destruct (sid_eqb id' id) eqn:Ei; [|reflexivity].
+        apply sid_eqb_eq in Ei. subst id'. contradiction.
+      * intros id'. rewrite I7, Ho2. cbn [sid_mem]. destruct (sid_eqb id' id); cbn [orb]; [destruct (sid_mem id' ids); reflexivity | reflexivity].
+Qed.
+
+(** the deferred decrements of the previous owners' counters *)
+Lemma sat_sub_sat m k : 0 <= k -> sat_sub (sat_sub m 1) k = sat_sub m (k + 1).
+Proof.
+  intros Hk. unfold sat_sub. destruct (Z.ltb_spec m 1); destruct (Z.ltb_spec m (k + 1)); try lia.
+  - destruct (Z.ltb_spec 0 k); lia.
+  - destruct (Z.ltb_spec (m - 1) k); lia.
+  - destruct (Z.ltb_spec (m - 1) k); lia.
+Qed.
+Lemma sat_sub_exact m k : k <= m -> sat_sub m k = m - k.
+Proof. intros H. unfold sat_sub. destruct (Z.ltb_spec m k); lia. Qed.
+Lemma alookup_dec_owners prev : forall cs o, (forall o m, alookup o cs = Some m -> 0 <= m) ->
+  alookup o (dec_owners prev cs) = option_map (fun m => sat_sub m (cnt o prev)) (alookup o cs).
+Proof.
+  unfold dec_owners. induction prev as [|x prev IH]; intros cs o Hnn; cbn [fold_left].
+  - rewrite cnt_nil. destruct (alookup o cs) as [m|] eqn:E; [|reflexivity]. cbn [option_map].
+    specialize (Hnn _ _ E). unfold sat_sub. destruct (Z.ltb_spec m 0); [lia|]. f_equal. lia.
+  - rewrite IH.
+    + rewrite alookup_upd_count, cnt_cons. destruct (beq o x) eqn:E.
+      * apply beq_eq in E. subst x. destruct (alookup o cs) as [m|]; [|reflexivity]. cbn [option_map].
+        rewrite (sat_sub_sat m _ (cnt_nonneg o prev)). f_equal. f_equal. lia.
+      * destruct (alookup o cs); [|reflexivity]. cbn [option_map]. f_equal.
+    + intros o' m. rewrite alookup_upd_count. destruct (beq o' x); [|apply Hnn].
+      destruct (alookup x cs) as [m0|]; [|discriminate]. cbn [option_map]. intros H; inversion H.
+      unfold sat_sub. destruct (Z.ltb_spec m0 1); lia.
+Qed.
+Lemma keys_dec_owners prev : forall cs, map fst (dec_owners prev cs) = map fst cs.
+Proof.
+  unfold dec_owners. induction prev as [|x prev IH]; intros cs; cbn [fold_left]; [reflexivity|].
+  rewrite IH, keys_upd_count. reflexivity.
+Qed.
+Lemma len_dec_owners prev cs : len (dec_owners prev cs) = len cs.
+Proof. rewrite <- (len_map_fst (dec_owners prev cs)), keys_dec_owners, len_map_fst. reflexivity. Qed.
+
+(** an owner is recorded at most as often as it has pending entries *)
+Lemma cnt_prev_bound byid bc o ids : PInv byid bc -> NoDup ids ->
+  cnt o (filter_map (owner byid) ids) <= len (bcg o bc).
+Proof.
+  intros Hp Hnd.
+  assert (Heq : cnt o (filter_map (owner byid) ids)
+                = len (filter (fun id => match owner byid id with Some o' => beq o o' | None => false end) ids)).
+  { clear Hnd. induction ids as [|id ids IH]; [reflexivity|]. cbn [filter_map filter].
+    destruct (owner byid id) as [o'|]; [|exact IH]. rewrite cnt_cons, IH. destruct (beq o o'); rewrite ?len_cons; lia. }
+  rewrite Heq. unfold len. apply inj_le. apply NoDup_incl_length.
+  - apply NoDup_filter. exact Hnd.
+  - intros id Hin. apply filter_In in Hin as [_ Hin]. apply (pi_owner _ _ Hp).
+    destruct (owner byid id) as [o'|]; [|discriminate]. apply beq_eq in Hin. subst. reflexivity.
+Qed.
+
+(** add_pending keeps the agreement of the four representations for ANY list of distinct
+    IDs - fresh or still pending for whatever consumer - and makes the reader the owner of
+    every one of them; [L] is any bound of the pending and the added IDs *)
+Theorem add_pending_invX now g c ids L : GInvX g L zero_off 0 -> NoDup ids ->
+  (forall id, In id ids -> sid_le id L) ->
+  GInvX (g_add_pending now g c ids) L zero_off 0 /\
+  g_last (g_add_pending now g c ids)
+    = (match rev ids with l :: _ => if sid_ltb (g_last g) l then l else g_last g | [] => g_last g end) /\
+  (forall id, owner (g_by_id (g_add_pending now g c ids)) id = if sid_mem id ids then Some c else owner (g_by_id g) id) /\
+  alookup c (g_consumers (g_add_pending now g c ids)) <> None.
+Proof.
+  intros Hg Hnd Hle. unfold g_add_pending.
+  destruct (create_consumer_inv g L zero_off 0 c Hg eq_refl) as (Hg1 & Hc1 & Hb1 & Hbc1 & Hl1 & _).
   set (g1 := snd (g_create_consumer g c)) in *.
-  assert (Hlt : sid_lt (g_last g) lastid).
-  { assert (In lastid ids) by (apply in_rev; rewrite Hlast; left; reflexivity). apply Hids; assumption. }
-  assert (Hids1 : forall id, In id ids -> owner (g_by_id g1) id = None /\ sid_le id lastid).
-  { intros id Hin. destruct (Hids id Hin) as [Hgt Hle]. split; [|assumption]. rewrite Hb1.
-    destruct (owner (g_by_id g) id) as [c0|] eqn:Eo; [exfalso|reflexivity].
-    unfold owner in Eo. destruct (pel_find id (g_by_id g)) as [p|] eqn:Ef; [|discriminate].
-    apply pel_find_In in Ef as [Hin' Hid]. pose proof (gi_cursor _ _ _ _ Hg) as Hcur. rewrite Forall_forall in Hcur.
-    specialize (Hcur p Hin'). cbv beta in Hcur. rewrite Hid in Hcur. eapply sid_lt_not_le; eassumption. }
-  assert (Hg1' : GInvX g1 lastid zero_off 0).
-  { eapply GInvX_weaken; [|exact Hg1]. left; assumption. }
-  destruct (add_entries_inv now c ids g1 lastid zero_off 0 Hg1' Hnd Hids1 Hc1) as (Hg2 & Hcs2 & Ht2 & Hl2 & Hn2 & Ho2).
-  cbn zeta in *.
-  set (g2 := fold_left (fun g id => pel_add_entry g {| p_id := id; p_consumer := c; p_time := now; p_count := 1 |}) ids g1) in *.
-  rewrite Hlast. cbn [set_total set_consumers g_last g_total g_consumers].
-  rewrite Hl2, Hl1. assert (sid_ltb (g_last g) lastid = true) as -> by (apply sid_ltb_lt; assumption).
-  cbn [set_last g_last g_by_id]. split; [|split; [reflexivity|]].
-  - unfold GInv. cbn [g_last set_last]. destruct Hg2 as [H1 H2 H3 H4 H5 H6 H7 H8 H9].
-    split; cbn [set_last set_total set_consumers g_by_id g_by_consumer g_consumers g_total g_ncons g_min g_max]; try assumption.
-    + rewrite keys_upd_count. assumption.
-    + intros c' n. rewrite alookup_upd_count. destruct (beq c' c) eqn:E.
-      * apply beq_eq in E. subst c'. destruct (alookup c (g_consumers g2)) as [m|] eqn:Em; [|discriminate].
-        cbn [option_map]. intros Hn; inversion Hn; subst. specialize (H4 c m Em). cbv beta in H4.
-        rewrite beq_refl in H4. unfold zero_off in *. lia.
-      * intros Hn. specialize (H4 c' n Hn). cbv beta in H4. rewrite E in H4. unfold zero_off in *. lia.
-    + intros c' id Ho. rewrite alookup_upd_count. destruct (beq c' c) eqn:E.
-      * apply beq_eq in E. subst c'. rewrite Hcs2. destruct (alookup c (g_consumers g1)); [discriminate|contradiction].
-      * eapply H5; eassumption.
-    + lia.
-    + rewrite len_upd_count. assumption.
-  - intros id. rewrite Ho2, Hb1. reflexivity.
+  assert (Hg1' : GInvX g1 L (fun o => (if beq o c then 0 else 0) - cnt o []) (0 - len (@nil bytes))).
+  { eapply GInvX_ext; [| |exact Hg1]; [intros o; unfold zero_off; rewrite cnt_nil; destruct (beq o c); lia | reflexivity]. }
+  pose proof (add_pending_loop now c ids g1 [] L 0 Hg1' Hnd Hle Hc1) as Hloop. cbn zeta in Hloop.
+  destruct (fold_left (add_pending_one now c) ids (g1, [])) as [g2 prev]. cbn [fst snd app] in Hloop.
+  destruct Hloop as (H2 & Hcs2 & Ht2 & Hl2 & Hn2 & Hprev & Ho2).
+  set (cs' := upd_count c (fun n => n + len ids) (dec_owners prev (g_consumers g2))).
+  set (g4 := set_total (set_consumers g2 cs') (g_total (set_consumers g2 cs') + (len ids - len prev))).
+  assert (Hnn : forall o m, alookup o (g_consumers g2) = Some m -> 0 <= m).
+  { intros o m Hm. rewrite Hcs2 in Hm. pose proof (gi_counts _ _ _ _ Hg1 _ _ Hm) as Hk. unfold zero_off in Hk.
+    pose proof (len_nonneg (bcg o (g_by_consumer g1))). lia. }
+  assert (Hbound : forall o m, alookup o (g_consumers g2) = Some m -> cnt o prev <= m).
+  { intros o m Hm. rewrite Hcs2 in Hm. pose proof (gi_counts _ _ _ _ Hg1 _ _ Hm) as Hk. unfold zero_off in Hk.
+    rewrite Hprev. pose proof (cnt_prev_bound _ _ o ids (gi_pel _ _ _ _ Hg1) Hnd). lia. }
+  assert (Hc2 : alookup c (g_consumers g2) <> None) by (rewrite Hcs2; exact Hc1).
+  assert (Hg4 : GInvX g4 L zero_off 0).
+  { destruct H2 as [A1 A2 A3 A4 A5 A6 A7 A8 A9]. subst g4.
+    split; cbn [set_total set_consumers g_by_id g_by_consumer g_consumers g_total g_ncons g_min g_max]; try assumption.
+    - subst cs'. rewrite keys_upd_count, keys_dec_owners. assumption.
+    - intros o m'. subst cs'. rewrite alookup_upd_count.
+      unfold zero_off. destruct (beq o c) eqn:E; rewrite (alookup_dec_owners _ _ _ Hnn).
+      + apply beq_eq in E. subst o. destruct (alookup c (g_consumers g2)) as [m|] eqn:Em; [|contradiction].
+        cbn [option_map]. intros Hm; inversion Hm; subst m'. specialize (A4 _ _ Em). cbv beta in A4. rewrite beq_refl in A4.
+        rewrite (sat_sub_exact _ _ (Hbound _ _ Em)). lia.
+      + destruct (alookup o (g_consumers g2)) as [m|] eqn:Em; [|discriminate]. cbn [option_map].
+        intros Hm; inversion Hm; subst m'. specialize (A4 _ _ Em). cbv beta in A4. rewrite E in A4.
+        rewrite (sat_sub_exact _ _ (Hbound _ _ Em)). lia.
+    - intros o id Ho. specialize (A5 _ _ Ho). subst cs'. rewrite alookup_upd_count.
+      destruct (beq o c); rewrite (alookup_dec_owners _ _ _ Hnn).
+      + destruct (alookup c (g_consumers g2)); [discriminate|contradiction].
+      + destruct (alookup o (g_consumers g2)); [discriminate|contradiction].
+    - lia.
+    - subst cs'. rewrite len_upd_count, len_dec_owners. assumption. }
+  assert (Hl4 : g_last g4 = g_last g) by (subst g4; cbn; rewrite Hl2; exact Hl1).
+  assert (Ho4 : forall id, owner (g_by_id g4) id = if sid_mem id ids then Some c else owner (g_by_id g) id).
+  { intros id. subst g4. cbn [set_total set_consumers g_by_id]. rewrite Ho2, Hb1. reflexivity. }
+  assert (Hc4 : alookup c (g_consumers g4) <> None).
+  { subst g4 cs'. cbn [set_total set_consumers g_consumers]. rewrite alookup_upd_count, beq_refl, (alookup_dec_owners _ _ _ Hnn).
+    destruct (alookup c (g_consumers g2)); [discriminate|contradiction]. }
+  fold cs'. fold g4. destruct (rev ids) as [|l r].
+  - split; [exact Hg4|]. split; [exact Hl4|]. split; [exact Ho4|exact Hc4].
+  - rewrite Hl4. destruct (sid_ltb (g_last g) l).
+    + split; [apply GInvX_set_last; exact Hg4|]. split; [reflexivity|]. split; [exact Ho4|exact Hc4].
+    + split; [exact Hg4|]. split; [exact Hl4|]. split; [exact Ho4|exact Hc4].
 Qed.
 
 (** ---- XACK ---- *)
@@ -646,21 +880,29 @@ Proof.
     rewrite I6, H4, H5. rewrite len_pel_remove. destruct (pel_find id (g_by_id g)); lia.
 Qed.
 
+Theorem acknowledge_invX g ids L : GInvX g L zero_off 0 ->
+  GInvX (snd (g_acknowledge g ids)) L zero_off 0 /\ g_last (snd (g_acknowledge g ids)) = g_last g /\
+  g_by_id (snd (g_acknowledge g ids)) = fold_left (fun l id => pel_remove id l) ids (g_by_id g) /\
+  fst (g_acknowledge g ids) = len (g_by_id g) - len (g_by_id (snd (g_acknowledge g ids))).
+Proof.
+  intros Hg. unfold g_acknowledge.
+  destruct (ack_fold_inv ids 0 g L Hg) as (H1 & H2 & H3 & H4 & H5 & H6).
+  destruct (fold_left g_ack_one ids (0, g)) as [n g'] eqn:E. cbn [fst snd] in *.
+  destruct (0 <? n) eqn:En; cbn [snd fst].
+  - apply Z.ltb_lt in En. cbn [set_total g_last g_by_id]. split; [|split; [assumption|split; [assumption|lia]]].
+    destruct H1 as [A1 A2 A3 A4 A5 A6 A7 A8 A9].
+    split; cbn [set_total g_by_id g_by_consumer g_consumers g_total g_ncons g_min g_max]; try assumption.
+    pose proof (len_nonneg (g_by_id g')). unfold sat_sub. replace (g_total g' <? n) with false by lia. lia.
+  - apply Z.ltb_ge in En. assert (Hn0 : n = 0) by lia. split; [|split; [assumption|split; [assumption|lia]]].
+    eapply GInvX_ext; [reflexivity| |exact H1]. lia.
+Qed.
 Theorem acknowledge_inv g ids : GInv g ->
   GInv (snd (g_acknowledge g ids)) /\ g_last (snd (g_acknowledge g ids)) = g_last g /\
   g_by_id (snd (g_acknowledge g ids)) = fold_left (fun l id => pel_remove id l) ids (g_by_id g) /\
   fst (g_acknowledge g ids) = len (g_by_id g) - len (g_by_id (snd (g_acknowledge g ids))).
 Proof.
-  intros Hg. unfold g_acknowledge.
-  destruct (ack_fold_inv ids 0 g (g_last g) Hg) as (H1 & H2 & H3 & H4 & H5 & H6).
-  destruct (fold_left g_ack_one ids (0, g)) as [n g'] eqn:E. cbn [fst snd] in *.
-  destruct (0 <? n) eqn:En; cbn [snd fst].
-  - apply Z.ltb_lt in En. cbn [set_total g_last g_by_id]. split; [|split; [assumption|split; [assumption|lia]]].
-    unfold GInv. cbn [set_total g_last]. rewrite H2. destruct H1 as [A1 A2 A3 A4 A5 A6 A7 A8 A9].
-    split; cbn [set_total g_by_id g_by_consumer g_consumers g_total g_ncons g_min g_max]; try assumption.
-    pose proof (len_nonneg (g_by_id g')). unfold sat_sub. replace (g_total g' <? n) with false by lia. lia.
-  - apply Z.ltb_ge in En. assert (Hn0 : n = 0) by lia. split; [|split; [assumption|split; [assumption|lia]]].
-    unfold GInv. rewrite H2. eapply GInvX_ext; [reflexivity| |exact H1]. lia.
+  intros Hg. destruct (GInv_bound g [] Hg) as (L & HL & _).
+  destruct (acknowledge_invX g ids L HL) as (H1 & H2). split; [exact (GInv_of_X _ _ H1) | exact H2].
 Qed.
 
 (** ---- XCLAIM ---- *)
@@ -738,15 +980,23 @@ Proof.
     split; [assumption|]. split; congruence.
 Qed.
 
+Theorem claim_invX now g c min_idle ids force L : GInvX g L zero_off 0 ->
+  GInvX (snd (g_claim now g c min_idle ids force)) L zero_off 0 /\
+  g_last (snd (g_claim now g c min_idle ids force)) = g_last g /\
+  map p_id (g_by_id (snd (g_claim now g c min_idle ids force))) = map p_id (g_by_id g).
+Proof.
+  intros Hg. unfold g_claim.
+  destruct (create_consumer_inv g L zero_off 0 c Hg eq_refl) as (Hg1 & Hc1 & Hb1 & _ & Hl1 & _).
+  destruct (claim_fold_inv now c min_idle force ids [] _ _ Hg1 Hc1) as (H1 & H2 & H3). cbn zeta in *.
+  split; [exact H1|split; [congruence|congruence]].
+Qed.
 Theorem claim_inv now g c min_idle ids force : GInv g ->
   GInv (snd (g_claim now g c min_idle ids force)) /\
   g_last (snd (g_claim now g c min_idle ids force)) = g_last g /\
   map p_id (g_by_id (snd (g_claim now g c min_idle ids force))) = map p_id (g_by_id g).
 Proof.
-  intros Hg. unfold g_claim.
-  destruct (create_consumer_inv g (g_last g) zero_off 0 c Hg eq_refl) as (Hg1 & Hc1 & Hb1 & _ & Hl1 & _).
-  destruct (claim_fold_inv now c min_idle force ids [] _ _ Hg1 Hc1) as (H1 & H2 & H3). cbn zeta in *.
-  split; [|split; [congruence|congruence]]. unfold GInv. rewrite H2, Hl1. exact H1.
+  intros Hg. destruct (GInv_bound g [] Hg) as (L & HL & _).
+  destruct (claim_invX now g c min_idle ids force L HL) as (H1 & H2). split; [exact (GInv_of_X _ _ H1) | exact H2].
 Qed.
 
 (** ---- XGROUP DELCONSUMER ---- *)
@@ -777,8 +1027,8 @@ Proof.
     + apply Hin. right; assumption.
 Qed.
 
-Theorem delete_consumer_inv g c : GInv g ->
-  GInv (snd (g_delete_consumer g c)) /\ g_last (snd (g_delete_consumer g c)) = g_last g /\
+Theorem delete_consumer_invX g c L : GInvX g L zero_off 0 ->
+  GInvX (snd (g_delete_consumer g c)) L zero_off 0 /\ g_last (snd (g_delete_consumer g c)) = g_last g /\
   alookup c (g_consumers (snd (g_delete_consumer g c))) = None /\
   fst (g_delete_consumer g c) = len (bcg c (g_by_consumer g)) /\
   (forall id, owner (g_by_id (snd (g_delete_consumer g c))) id =
@@ -844,16 +1094,32 @@ Proof.
       apply beq_eq in E. subst c'. apply (pi_owner _ _ H1) in Eo. rewrite Hbcg in Eo. destruct Eo.
 Qed.
 
-(** ---- XGROUP SETID keeps the invariant exactly when no pending ID is above the new cursor ---- *)
-Theorem set_last_inv g i : GInv g -> Forall (fun p => sid_le (p_id p) i) (g_by_id g) -> GInv (set_last g i).
+Theorem delete_consumer_inv g c : GInv g ->
+  GInv (snd (g_delete_consumer g c)) /\ g_last (snd (g_delete_consumer g c)) = g_last g /\
+  alookup c (g_consumers (snd (g_delete_consumer g c))) = None /\
+  fst (g_delete_consumer g c) = len (bcg c (g_by_consumer g)) /\
+  (forall id, owner (g_by_id (snd (g_delete_consumer g c))) id =
+              match owner (g_by_id g) id with Some c' => if beq c' c then None else Some c' | None => None end).
 Proof.
-  intros [H1 H2 H3 H4 H5 H6 H7 H8 H9] Hall. split; cbn [set_last g_last g_by_id g_by_consumer g_consumers g_total g_ncons g_min g_max]; assumption.
+  intros Hg. destruct (GInv_bound g [] Hg) as (L & HL & _).
+  destruct (delete_consumer_invX g c L HL) as (H1 & H2). split; [exact (GInv_of_X _ _ H1) | exact H2].
 Qed.
+
+(** ---- XGROUP SETID: the agreement does not depend on the cursor at all ---- *)
+Theorem set_last_inv g i : GInv g -> GInv (set_last g i).
+Proof. intros [H1 H3 H4 H5 H6 H7 H8 H9]. split; cbn [set_last g_by_id g_by_consumer g_consumers g_total g_ncons g_min g_max]; assumption. Qed.
+Theorem set_last_below g i : Forall (fun p => sid_le (p_id p) i) (g_by_id g) -> BelowCursor (set_last g i).
+Proof. intros H. exact H. Qed.
 Theorem create_consumer_ginv g c : GInv g -> GInv (snd (g_create_consumer g c)).
 Proof.
-  intros Hg. destruct (create_consumer_inv g (g_last g) zero_off 0 c Hg eq_refl) as (H1 & _ & _ & _ & Hl & _).
-  unfold GInv. rewrite Hl. exact H1.
+  intros Hg. destruct (GInv_bound g [] Hg) as (L & HL & _).
+  destruct (create_consumer_inv g L zero_off 0 c HL eq_refl) as (H1 & _). exact (GInv_of_X _ _ H1).
 Qed.
+Lemma create_consumer_same g c :
+  g_by_id (snd (g_create_consumer g c)) = g_by_id g /\ g_last (snd (g_create_consumer g c)) = g_last g /\
+  g_by_consumer (snd (g_create_consumer g c)) = g_by_consumer g /\ g_total (snd (g_create_consumer g c)) = g_total g /\
+  g_min (snd (g_create_consumer g c)) = g_min g /\ g_max (snd (g_create_consumer g c)) = g_max g.
+Proof. unfold g_create_consumer. destruct (amem c (g_consumers g)); cbn; auto 10. Qed.
 
 (** ---- removal as a filter; XACK counts each pending ID once ---- *)
 Lemma pel_remove_filter id l : psorted l ->
@@ -894,11 +1160,11 @@ Theorem ack_counts_once g ids : GInv g ->
   fst (g_acknowledge (snd (g_acknowledge g ids)) ids) = 0.
 Proof.
   intros Hg. destruct (acknowledge_inv g ids Hg) as (H1 & H2 & H3 & H4).
-  pose proof (pi_sorted _ _ (gi_pel _ _ _ _ Hg)) as Hs.
+  pose proof (pi_sorted _ _ (ga_pel _ Hg)) as Hs.
   rewrite (fold_remove_filter ids _ Hs) in H3. split; [|split; [exact H3|]].
   - rewrite H4, H3. rewrite (len_filter_split (fun p => sid_mem (p_id p) ids) (g_by_id g)). lia.
   - destruct (acknowledge_inv _ ids H1) as (_ & _ & K3 & K4). rewrite K4, K3.
-    rewrite (fold_remove_filter ids _ (pi_sorted _ _ (gi_pel _ _ _ _ H1))), H3, filter_filter'.
+    rewrite (fold_remove_filter ids _ (pi_sorted _ _ (ga_pel _ H1))), H3, filter_filter'.
     assert (Heq : filter (fun x => negb (sid_mem (p_id x) ids) && negb (sid_mem (p_id x) ids)) (g_by_id g)
                   = filter (fun p => negb (sid_mem (p_id p) ids)) (g_by_id g)).
     { apply filter_ext_in'. intros p _. apply andb_diag. }
@@ -946,7 +1212,7 @@ Theorem pending_summary_exact g : GInv g ->
   (forall p, In p (g_by_id g) -> alookup (p_consumer p) (g_consumers g) <> None) /\
   (forall c, bcg c (g_by_consumer g) <> [] <-> owned_by c (g_by_id g) <> []).
 Proof.
-  intros Hg. pose proof Hg as [H1 H2 H3 H4 H5 H6 H7 H8 H9]. unfold zero_off in *.
+  intros Hg. pose proof Hg as [H1 H3 H4 H5 H6 H7 H8 H9].
   split; [lia|]. split; [assumption|]. split; [assumption|]. split; [assumption|]. split; [|split].
   - intros c n Hn. rewrite <- (index_agrees_len _ _ c H1). specialize (H4 c n Hn). lia.
   - intros p Hin. apply (H5 _ (p_id p)). unfold owner. rewrite (pel_find_of_In _ _ (pi_sorted _ _ H1) Hin). reflexivity.
@@ -965,7 +1231,7 @@ Theorem claim_moves now g c min_idle id force e : GInv g ->
   (forall id', id' <> id -> pel_find id' (g_by_id (snd (g_claim now g c min_idle [id] force))) = pel_find id' (g_by_id g)).
 Proof.
   intros Hg Hf Hok. unfold g_claim. cbn [fold_left].
-  destruct (create_consumer_inv g (g_last g) zero_off 0 c Hg eq_refl) as (_ & _ & Hb1 & _).
+  destruct (create_consumer_same g c) as (Hb1 & _).
   unfold g_claim_one. rewrite Hb1, Hf.
   assert (negb force && (Z.max 0 (now - p_time e) <? min_idle) = false) as ->.
   { destruct Hok as [->|Hok]; [reflexivity|]. apply andb_false_iff. right. apply Z.ltb_ge. assumption. }
@@ -1034,7 +1300,8 @@ Proof. intros H. rewrite <- map_rev, H. reflexivity. Qed.
 
 (** a read with ">": returns the first [count] present entries above the cursor, in ID
     order; the cursor moves to the last of them; unless NOACK they become pending under
-    the reader (with NOACK the pending set is untouched) *)
+    the reader - whether they were pending before (XGROUP SETID moved the cursor back) or
+    not, and whoever owned them (with NOACK the pending set is untouched) *)
 Theorem read_new_inv now s g c count noack : SInv s -> GInv g ->
   let r := st_read_group now s g c sid_max count noack in
   fst r = take_count count (filter (p_gt (g_last g)) (s_entries s)) /\
@@ -1045,7 +1312,7 @@ Theorem read_new_inv now s g c count noack : SInv s -> GInv g ->
   (forall id, owner (g_by_id (snd r)) id =
               if negb noack && sid_mem id (map fst (fst r)) then Some c else owner (g_by_id g) id).
 Proof.
-  intros Hs Hg. cbn zeta. unfold st_read_group. rewrite sid_eqb_refl.
+  intros Hs Hg. cbn zeta. unfold st_read_group. rewrite sid_eqb_refl. cbn [negb].
   rewrite (range_after_spec _ (g_last g) count (inv_sorted s Hs)).
   remember (take_count count (filter (p_gt (g_last g)) (s_entries s))) as es eqn:Hes.
   assert (Hsorted : sorted es) by (subst es; apply sorted_take_count, sorted_filter, (inv_sorted s Hs)).
@@ -1065,22 +1332,40 @@ Proof.
     destruct noack; cbn [fst snd negb andb].
     + (* NOACK: only the cursor moves *)
       rewrite Erev. assert (sid_ltb (g_last g) (fst el) = true) as -> by (apply sid_ltb_lt; assumption).
-      split; [reflexivity|]. split.
-      { apply set_last_inv; [assumption|]. eapply Forall_impl; [|exact (gi_cursor _ _ _ _ Hg)].
-        intros p Hp. cbv beta in Hp. left. eapply sid_le_lt_trans; eassumption. }
+      split; [reflexivity|]. split; [apply set_last_inv; assumption|].
       split; [assumption|]. split; [assumption|]. split; [intros Hnil; discriminate|].
       split; [|intros id; reflexivity].
       intros e rest' He. inversion He; subst. reflexivity.
     + assert (Hrev : rev (map fst (e0 :: es')) = fst el :: tl (rev (map fst (e0 :: es')))).
       { apply (rev_map_head fst _ el rest Erev). }
-      destruct (add_pending_inv now g c (map fst (e0 :: es')) (fst el) Hg (sorted_ids_nodup _ Hsorted)) as (H1 & H2 & H3).
-      * intros id Hin. apply in_map_iff in Hin as [e [He Hin]]. subst id. split.
-        -- rewrite Forall_forall in Hgt. apply Hgt. assumption.
-        -- apply (sorted_last_max _ el rest Hsorted Erev). assumption.
-      * exact Hrev.
-      * split; [reflexivity|]. split; [assumption|]. split; [assumption|]. split; [assumption|].
-        split; [intros Hnil; discriminate|]. split; [|exact H3].
-        intros e rest' He. rewrite He in Erev. inversion Erev; subst. exact H2.
+      destruct (GInv_bound g (map fst (e0 :: es')) Hg) as (L & HL & Hids). rewrite Forall_forall in Hids.
+      destruct (add_pending_invX now g c (map fst (e0 :: es')) L HL (sorted_ids_nodup _ Hsorted) Hids) as (H1 & H2 & H3 & _).
+      rewrite Hrev in H2. assert (Hb : sid_ltb (g_last g) (fst el) = true) by (apply sid_ltb_lt; assumption). rewrite Hb in H2.
+      split; [reflexivity|]. split; [exact (GInv_of_X _ _ H1)|]. split; [assumption|]. split; [assumption|].
+      split; [intros Hnil; discriminate|]. split; [|exact H3].
+      intros e rest' He. rewrite He in Erev. inversion Erev; subst. exact H2.
+Qed.
+
+(** ... and while SETID does not move the cursor back, no pending ID is above the cursor *)
+Lemma read_new_below now s g c count noack : SInv s -> GInv g -> BelowCursor g ->
+  BelowCursor (snd (st_read_group now s g c sid_max count noack)).
+Proof.
+  intros Hs Hg Hb. destruct (read_new_inv now s g c count noack Hs Hg) as (_ & H2 & H3 & H4 & H5 & H6 & H7). cbn zeta in *.
+  destruct (st_read_group now s g c sid_max count noack) as [es g1]. cbn [fst snd] in *.
+  destruct (rev es) as [|el rest] eqn:Erev.
+  - apply (f_equal (@rev _)) in Erev. rewrite rev_involutive in Erev. cbn [rev] in Erev. rewrite (H5 Erev). exact Hb.
+  - pose proof (H6 _ _ eq_refl) as Hl1.
+    assert (Hel : In el es) by (apply in_rev; rewrite Erev; left; reflexivity).
+    assert (Hlt : sid_lt (g_last g) (fst el)) by (rewrite Forall_forall in H4; apply H4; assumption).
+    unfold BelowCursor. rewrite Hl1. apply Forall_forall. intros p Hp.
+    pose proof (pel_find_of_In _ _ (pi_sorted _ _ (ga_pel _ H2)) Hp) as Hf.
+    assert (Ho : owner (g_by_id g1) (p_id p) = Some (p_consumer p)) by (unfold owner; rewrite Hf; reflexivity).
+    rewrite H7 in Ho. destruct (negb noack && sid_mem (p_id p) (map fst es)) eqn:Em.
+    + apply andb_prop in Em as [_ Em]. apply sid_mem_map_fst in Em as [e [He <-]].
+      apply (sorted_last_max es el rest H3 Erev). assumption.
+    + unfold owner in Ho. destruct (pel_find (p_id p) (g_by_id g)) as [q|] eqn:Eq; [|discriminate].
+      apply pel_find_In in Eq as [Hq Hid]. unfold BelowCursor in Hb. rewrite Forall_forall in Hb. specialize (Hb q Hq).
+      cbv beta in Hb. rewrite Hid in Hb. left. eapply sid_le_lt_trans; eassumption.
 Qed.
 
 (** the batch is a prefix: every present entry between the old and the new cursor is in it *)
@@ -1105,10 +1390,219 @@ Proof.
     specialize (Hab el e Hel Hin). unfold elt in Hab. eapply sid_lt_not_le; eassumption.
 Qed.
 
+(** after a re-delivery (the cursor was moved back by XGROUP SETID, another consumer reads
+    with ">"): every returned entry has exactly one owner, the reader - it is in the reader's
+    index and in nobody else's *)
+Theorem read_new_single_owner now s g c count : SInv s -> GInv g ->
+  let r := st_read_group now s g c sid_max count false in
+  forall e, In e (fst r) ->
+    owner (g_by_id (snd r)) (fst e) = Some c /\
+    forall c', In (fst e) (bcg c' (g_by_consumer (snd r))) <-> c' = c.
+Proof.
+  intros Hs Hg. cbn zeta. destruct (read_new_inv now s g c count false Hs Hg) as (_ & H2 & _ & _ & _ & _ & H7). cbn zeta in *.
+  intros e He.
+  assert (Ho : owner (g_by_id (snd (st_read_group now s g c sid_max count false))) (fst e) = Some c).
+  { rewrite H7. cbn [negb andb]. assert (sid_mem (fst e) (map fst (fst (st_read_group now s g c sid_max count false))) = true) as ->; [|reflexivity].
+    apply sid_mem_map_fst. exists e. auto. }
+  split; [exact Ho|]. intros c'. rewrite (pi_owner _ _ (ga_pel _ H2)), Ho. split; [intros H; inversion H; reflexivity | intros ->; reflexivity].
+Qed.
+
+(** ---- XREADGROUP with an explicit ID (da451f0): the reader's own pending entries ---- *)
+Definition keeps (f : pending -> pending) : Prop :=
+  forall q, p_id (f q) = p_id q /\ p_consumer (f q) = p_consumer q.
+Lemma pel_find_map f l id : keeps f -> pel_find id (map f l) = option_map f (pel_find id l).
+Proof.
+  intros Hf. induction l as [|q l IH]; cbn [map pel_find]; [reflexivity|].
+  rewrite (proj1 (Hf q)). destruct (sid_eqb id (p_id q)); [reflexivity | exact IH].
+Qed.
+Lemma owner_map f l id : keeps f -> owner (map f l) id = owner l id.
+Proof.
+  intros Hf. unfold owner. rewrite (pel_find_map f l id Hf). destruct (pel_find id l) as [q|]; [|reflexivity].
+  cbn [option_map]. rewrite (proj2 (Hf q)). reflexivity.
+Qed.
+Lemma ids_map f l : keeps f -> map p_id (map f l) = map p_id l.
+Proof. intros Hf. rewrite map_map. apply map_ext. intros q. apply (Hf q). Qed.
+Lemma psorted_ids_sorted l : psorted l <-> StronglySorted sid_lt (map p_id l).
+Proof.
+  induction l as [|q l IH]; cbn [map]; [split; constructor|]. split; intros H.
+  - apply psorted_inv in H as [Hs Hq]. constructor; [apply IH; assumption|].
+    apply (proj2 (@Forall_map _ _ p_id (sid_lt (p_id q)) l)). exact Hq.
+  - inversion H as [|? ? Hs Hq]; subst. constructor; [apply IH; assumption|].
+    apply (proj1 (@Forall_map _ _ p_id (sid_lt (p_id q)) l)) in Hq. exact Hq.
+Qed.
+Lemma psorted_same_ids l l' : map p_id l' = map p_id l -> psorted l -> psorted l'.
+Proof. intros E H. apply psorted_ids_sorted. rewrite E. apply psorted_ids_sorted. exact H. Qed.
+Lemma len_same_ids (l l' : list pending) : map p_id l' = map p_id l -> len l' = len l.
+Proof. intros E. unfold len. rewrite <- (map_length p_id l'), E, map_length. reflexivity. Qed.
+
+Lemma keeps_bump now id : keeps (fun q => if sid_eqb id (p_id q) then bump now q else q).
+Proof. intros q. destruct (sid_eqb id (p_id q)); split; reflexivity. Qed.
+
+Lemma bump_fold_facts now ids : forall l,
+  map p_id (fold_left (pel_bump now) ids l) = map p_id l /\
+  (forall id, owner (fold_left (pel_bump now) ids l) id = owner l id).
+Proof.
+  induction ids as [|i ids IH]; intros l; cbn [fold_left]; [auto|].
+  destruct (IH (pel_bump now l i)) as [I1 I2]. unfold pel_bump in *. split.
+  - rewrite I1. apply ids_map, keeps_bump.
+  - intros id. rewrite I2. apply owner_map, keeps_bump.
+Qed.
+Lemma bump_fold_find now ids : forall l, NoDup ids -> forall id,
+  pel_find id (fold_left (pel_bump now) ids l)
+  = option_map (fun q => if sid_mem id ids then bump now q else q) (pel_find id l).
+Proof.
+  induction ids as [|i ids IH]; intros l Hnd id; cbn [fold_left sid_mem].
+  - destruct (pel_find id l); reflexivity.
+  - inversion Hnd as [|? ? Hni Hnd']; subst. rewrite (IH _ Hnd'). unfold pel_bump.
+    rewrite (pel_find_map _ l id (keeps_bump now i)).
+    destruct (pel_find id l) as [q|] eqn:Ef; [|reflexivity]. cbn [option_map]. f_equal.
+    apply pel_find_In in Ef as [_ Hid]. rewrite Hid, (sid_eqb_sym i id).
+    destruct (sid_eqb id i) eqn:E; cbn [orb]; [|reflexivity].
+    apply sid_eqb_eq in E. subst i.
+    assert (sid_mem id ids = false) as ->; [|reflexivity].
+    destruct (sid_mem id ids) eqn:Em; [|reflexivity]. apply sid_mem_In in Em. contradiction.
+Qed.
+
+Theorem redeliver_invX now g c after count L : GInvX g L zero_off 0 ->
+  GInvX (snd (g_redeliver_pending now g c after count)) L zero_off 0.
+Proof.
+  intros Hg. unfold g_redeliver_pending. cbn [snd].
+  destruct (create_consumer_inv g L zero_off 0 c Hg eq_refl) as (Hg1 & _).
+  set (g1 := snd (g_create_consumer g c)) in *.
+  set (ids := map p_id (take_count count (filter (fun p => beq (p_consumer p) c) (pel_after after (g_by_id g1))))).
+  destruct (bump_fold_facts now ids (g_by_id g1)) as [Hids Hown].
+  set (l' := fold_left (pel_bump now) ids (g_by_id g1)) in *.
+  destruct Hg1 as [A1 A2 A3 A4 A5 A6 A7 A8 A9].
+  split; cbn [set_byid g_by_id g_by_consumer g_consumers g_total g_ncons g_min g_max]; try assumption.
+  - destruct A1 as [B1 B2 B3 B4]. split; try assumption.
+    + eapply psorted_same_ids; eassumption.
+    + intros c' id. rewrite Hown. apply B3.
+  - apply (proj1 (@Forall_map _ _ p_id (fun i => sid_le i L) l')). rewrite Hids.
+    apply (proj2 (@Forall_map _ _ p_id (fun i => sid_le i L) (g_by_id g1))). exact A2.
+  - intros c' id. rewrite Hown. apply A5.
+  - rewrite (len_same_ids _ _ Hids). exact A6.
+  - rewrite A8, !pel_min_ids, Hids. reflexivity.
+  - rewrite A9, !pel_max_ids, Hids. reflexivity.
+Qed.
+
+Theorem redeliver_inv now g c after count : GInv g -> GInv (snd (g_redeliver_pending now g c after count)).
+Proof.
+  intros Hg. destruct (GInv_bound g [] Hg) as (L & HL & _). exact (GInv_of_X _ _ (redeliver_invX now g c after count L HL)).
+Qed.
+
+Definition own_pending_after (g : group) (c : bytes) (after : sid) : list pending :=
+  filter (fun p => beq (p_consumer p) c) (pel_after after (g_by_id g)).
+
+Lemma NoDup_app_l {A} (a b : list A) : NoDup (a ++ b) -> NoDup a.
+Proof.
+  induction a as [|x a IH]; cbn [app]; intros H; [constructor|]. inversion H as [|? ? Hn Hd]; subst.
+  constructor; [|auto]. intros Hin. apply Hn. apply in_or_app. left; assumption.
+Qed.
+Lemma take_count_nodup_ids count (l : list pending) : NoDup (map p_id l) -> NoDup (map p_id (take_count count l)).
+Proof.
+  intros H. destruct (take_count_split count l) as [rest Hs]. rewrite Hs, map_app in H.
+  apply NoDup_app_l in H. exact H.
+Qed.
+
+(** A read with an explicit ID returns the reader's own pending entries above that ID (the
+    first COUNT of them, in ID order; those that were deleted from the stream are left out)
+    and changes nothing but their delivery count and time: pending set, owners, per-consumer
+    index, total, bounds and cursor are untouched; the reader is registered as a consumer if
+    it was not. *)
+Theorem read_own_spec now s g c after count noack : sid_eqb after sid_max = false -> GInv g ->
+  let r := st_read_group now s g c after count noack in
+  let sel := map p_id (take_count count (own_pending_after g c after)) in
+  fst r = filter_map (fun id => find_entry id (s_entries s)) sel /\
+  GInv (snd r) /\
+  g_last (snd r) = g_last g /\ g_by_consumer (snd r) = g_by_consumer g /\ g_total (snd r) = g_total g /\
+  g_min (snd r) = g_min g /\ g_max (snd r) = g_max g /\
+  g_consumers (snd r) = g_consumers (snd (g_create_consumer g c)) /\
+  g_ncons (snd r) = g_ncons (snd (g_create_consumer g c)) /\
+  map p_id (g_by_id (snd r)) = map p_id (g_by_id g) /\
+  (forall id, owner (g_by_id (snd r)) id = owner (g_by_id g) id) /\
+  (forall id, pel_find id (g_by_id (snd r))
+              = option_map (fun q => if sid_mem id sel then bump now q else q) (pel_find id (g_by_id g))).
+Proof.
+  intros Hne Hg. cbn zeta. unfold st_read_group. rewrite Hne. cbn [negb].
+  destruct (GInv_bound g [] Hg) as (L & HL & _).
+  pose proof (redeliver_invX now g c after count L HL) as Hinv.
+  unfold g_redeliver_pending in *. cbn [fst snd] in *.
+  destruct (create_consumer_same g c) as (Eb & El & Ebc & Et & Emin & Emax).
+  unfold own_pending_after. rewrite Eb in *.
+  set (sel := map p_id (take_count count (filter (fun p => beq (p_consumer p) c) (pel_after after (g_by_id g))))) in *.
+  destruct (bump_fold_facts now sel (g_by_id g)) as [Hids Hown].
+  assert (Hnd : NoDup sel).
+  { subst sel. apply take_count_nodup_ids. apply psorted_ids_nodup. apply psorted_filter. unfold pel_after. apply psorted_filter.
+    apply (pi_sorted _ _ (ga_pel _ Hg)). }
+  split; [reflexivity|]. split; [exact (GInv_of_X _ _ Hinv)|].
+  cbn [set_byid g_last g_by_id g_by_consumer g_consumers g_total g_ncons g_min g_max].
+  repeat (split; [first [assumption | reflexivity]|]).
+  intros id. apply bump_fold_find. exact Hnd.
+Qed.
+
+Lemma in_filter_map {A B} (f : A -> option B) l y : In y (filter_map f l) <-> exists x, In x l /\ f x = Some y.
+Proof.
+  induction l as [|x l IH]; cbn [filter_map In]; [split; [intros [] | intros (x & [] & _)]|].
+  destruct (f x) as [z|] eqn:E.
+  - cbn [In]. rewrite IH. split.
+    + intros [->|(x' & H1 & H2)]; [exists x; auto | exists x'; auto].
+    + intros (x' & [->|H1] & H2); [left; congruence | right; exists x'; auto].
+  - rewrite IH. split.
+    + intros (x' & H1 & H2). exists x'; auto.
+    + intros (x' & [->|H1] & H2); [congruence | exists x'; auto].
+Qed.
+Lemma find_entry_some id es e : sorted es -> find_entry id es = Some e <-> In e es /\ fst e = id.
+Proof.
+  intros Hs. rewrite (find_entry_spec id es Hs). split.
+  - destruct (filter (fun e0 => sid_eqb (fst e0) id) es) as [|e0 r] eqn:E; [discriminate|].
+    intros H; inversion H; subst e0.
+    assert (Hin : In e (filter (fun e0 => sid_eqb (fst e0) id) es)) by (rewrite E; left; reflexivity).
+    apply filter_In in Hin as [H1 H2]. apply sid_eqb_eq in H2. auto.
+  - intros [Hin Hid].
+    assert (Hin' : In e (filter (fun e0 => sid_eqb (fst e0) id) es)).
+    { apply filter_In. split; [assumption|]. apply sid_eqb_eq. assumption. }
+    destruct (filter (fun e0 => sid_eqb (fst e0) id) es) as [|e0 r] eqn:E; [destruct Hin'|].
+    f_equal. assert (Hs' : sorted (e0 :: r)) by (rewrite <- E; apply sorted_filter; assumption).
+    assert (H0 : In e0 (filter (fun e1 => sid_eqb (fst e1) id) es)) by (rewrite E; left; reflexivity).
+    apply filter_In in H0 as [_ H0]. apply sid_eqb_eq in H0.
+    destruct Hin' as [->|Hr]; [reflexivity|exfalso].
+    apply sorted_cons_inv in Hs' as [_ Hf]. rewrite Forall_forall in Hf. specialize (Hf e Hr). unfold elt in Hf.
+    rewrite H0, Hid in Hf. eapply sid_lt_irrefl; eassumption.
+Qed.
+(** the reply as a set and its order: exactly the entries of the stream whose ID is one of
+    the selected pending IDs, in ID order *)
+Theorem read_own_entries now s g c after count noack : sid_eqb after sid_max = false -> SInv s -> GInv g ->
+  let r := st_read_group now s g c after count noack in
+  let sel := map p_id (take_count count (own_pending_after g c after)) in
+  sorted (fst r) /\ forall e, In e (fst r) <-> In e (s_entries s) /\ In (fst e) sel.
+Proof.
+  intros Hne Hs Hg. cbn zeta. destruct (read_own_spec now s g c after count noack Hne Hg) as (H1 & _). cbn zeta in H1.
+  rewrite H1. pose proof (inv_sorted s Hs) as Hso.
+  set (sel := map p_id (take_count count (own_pending_after g c after))).
+  assert (Hsel : StronglySorted sid_lt sel).
+  { subst sel. unfold own_pending_after, pel_after.
+    assert (Hp : psorted (filter (fun p => beq (p_consumer p) c) (filter (fun p => sid_ltb after (p_id p)) (g_by_id g)))).
+    { apply psorted_filter, psorted_filter, (pi_sorted _ _ (ga_pel _ Hg)). }
+    apply psorted_ids_sorted in Hp. revert Hp. generalize (filter (fun p => beq (p_consumer p) c) (filter (fun p => sid_ltb after (p_id p)) (g_by_id g))).
+    intros l Hp. destruct (take_count_split count l) as [rest Hsp]. rewrite Hsp, map_app in Hp.
+    clear Hsp. induction (map p_id (take_count count l)) as [|x xs IHx]; [constructor|]. cbn [app] in Hp.
+    inversion Hp as [|? ? Hs' Hf']; subst. apply Forall_app in Hf' as [Hf' _]. constructor; auto. }
+  split.
+  - clear H1. induction Hsel as [|id sel' Hs' IH Hf]; cbn [filter_map]; [constructor|].
+    destruct (find_entry id (s_entries s)) as [e|] eqn:E; [|exact IH]. constructor; [exact IH|].
+    apply Forall_forall. intros e' He'. apply in_filter_map in He' as (id' & Hid' & Hf').
+    apply (find_entry_some _ _ _ Hso) in E as [_ <-]. apply (find_entry_some _ _ _ Hso) in Hf' as [_ <-].
+    rewrite Forall_forall in Hf. unfold elt. apply Hf. exact Hid'.
+  - intros e. rewrite in_filter_map. split.
+    + intros (id & Hid & Hf). apply (find_entry_some _ _ _ Hso) in Hf as [Hin <-]. auto.
+    + intros [Hin Hid]. exists (fst e). split; [assumption|]. apply (find_entry_some _ _ _ Hso). auto.
+Qed.
+
 (** ---- histories of one group on one stream ---- *)
 Inductive gop :=
 | GStream (o : sop)                                   (* XADD / XDEL / XTRIM in between *)
 | GRead (now : Z) (c : bytes) (count : option Z) (noack : bool)   (* XREADGROUP GROUP g c [COUNT n] [NOACK] STREAMS k > *)
+| GReread (now : Z) (c : bytes) (after : sid) (count : option Z)  (* XREADGROUP ... STREAMS k <id>: the reader's own history *)
 | GAck (ids : list sid)
 | GClaim (now : Z) (c : bytes) (min_idle : Z) (ids : list sid) (force : bool)
 | GDelConsumer (c : bytes)
@@ -1123,6 +1617,7 @@ Definition gstep (s : stream) (g : group) (o : gop) : stream * group * list (byt
       match st_read_group now s g c sid_max count noack with
       | (es, g') => (s, g', map (fun e => (c, fst e)) es)
       end
+  | GReread now c after count => (s, snd (g_redeliver_pending now g c after count), [])
   | GAck ids => (s, snd (g_acknowledge g ids), [])
   | GClaim now c mi ids f => (s, snd (g_claim now g c mi ids f), [])
   | GDelConsumer c => (s, snd (g_delete_consumer g c), [])
@@ -1176,7 +1671,7 @@ Lemma gstep_facts s g o : SInv s -> GInv g -> sid_le (g_last g) (s_last s) -> go
   match gstep s g o with (s1, g1, d) => step_facts s g s1 g1 d end.
 Proof.
   intros Hs Hg Hle Hok.
-  destruct o as [o|now c count noack|ids|now c mi ids f|c|c]; cbn [gstep].
+  destruct o as [o|now c count noack|now c after count|ids|now c mi ids f|c|c]; cbn [gstep].
   - cbn [gop_ok] in Hok. destruct (sstep_inv s o Hs Hok) as [Hs1 _]. destruct (sstep_entries s o Hs Hok) as [Hl1 He1].
     unfold step_facts. cbn [map].
     split; [assumption|]. split; [assumption|]. split; [eapply sid_le_trans; eassumption|].
@@ -1208,11 +1703,31 @@ Proof.
       - apply Forall_forall. intros i Hi. apply in_map_iff in Hi as [x [<- Hx]]. rewrite Forall_forall in H4. apply H4. assumption. }
     split; [assumption|]. split; [assumption|]. split; [apply sid_le_refl|]. split; [auto|].
     intros e He Hlt Hle'. apply in_map. apply Hc; assumption.
+  - apply step_facts_refl; [assumption|apply redeliver_inv; assumption| |assumption].
+    unfold g_redeliver_pending. cbn [snd set_byid g_last]. apply create_consumer_same.
   - destruct (acknowledge_inv g ids Hg) as (H1 & H2 & _). apply step_facts_refl; assumption.
   - destruct (claim_inv now g c mi ids f Hg) as (H1 & H2 & _). apply step_facts_refl; assumption.
   - destruct (delete_consumer_inv g c Hg) as (H1 & H2 & _). apply step_facts_refl; assumption.
   - pose proof (create_consumer_ginv g c Hg) as H1. apply step_facts_refl; [assumption|assumption| |assumption].
     unfold g_create_consumer. destruct (amem c (g_consumers g)); reflexivity.
+Qed.
+
+(** while XGROUP SETID does not move the cursor back, no pending ID is above the cursor *)
+Lemma gstep_below s g o : SInv s -> GInv g -> BelowCursor g -> gop_ok o ->
+  BelowCursor (snd (fst (gstep s g o))).
+Proof.
+  intros Hs Hg Hb Hok. pose proof (proj2 (GInvC_iff g) (conj Hg Hb)) as Hc. unfold GInvC in Hc.
+  destruct o as [o|now c count noack|now c after count|ids|now c mi ids f|c|c]; cbn [gstep fst snd].
+  - exact Hb.
+  - pose proof (read_new_below now s g c count noack Hs Hg Hb) as H.
+    destruct (st_read_group now s g c sid_max count noack). exact H.
+  - pose proof (redeliver_invX now g c after count _ Hc) as H. apply gi_cursor in H.
+    unfold BelowCursor. unfold g_redeliver_pending in *. cbn [snd set_byid g_last g_by_id] in *.
+    rewrite (proj1 (proj2 (create_consumer_same g c))). exact H.
+  - destruct (acknowledge_invX g ids _ Hc) as (H1 & H2 & _). unfold BelowCursor. rewrite H2. exact (gi_cursor _ _ _ _ H1).
+  - destruct (claim_invX now g c mi ids f _ Hc) as (H1 & H2 & _). unfold BelowCursor. rewrite H2. exact (gi_cursor _ _ _ _ H1).
+  - destruct (delete_consumer_invX g c _ Hc) as (H1 & H2 & _). unfold BelowCursor. rewrite H2. exact (gi_cursor _ _ _ _ H1).
+  - unfold BelowCursor. destruct (create_consumer_same g c) as (E1 & E2 & _). rewrite E1, E2. exact Hb.
 Qed.
 
 Lemma step_facts_trans s g s1 g1 d s2 g2 l :
@@ -1260,6 +1775,16 @@ Proof.
     pose proof Hstep as (A1 & A2 & A3 & _).
     specialize (IH s1 g1 A1 A2 A3 Hok'). destruct (grun s1 g1 ops) as [[s2 g2] l].
     eapply step_facts_trans; eassumption.
+Qed.
+
+Theorem group_history_below ops : forall s g, SInv s -> GInv g -> BelowCursor g -> sid_le (g_last g) (s_last s) ->
+  Forall gop_ok ops -> BelowCursor (snd (fst (grun s g ops))).
+Proof.
+  induction ops as [|o ops IH]; intros s g Hs Hg Hb Hle Hok; cbn [grun]; [exact Hb|].
+  inversion Hok as [|? ? Ho Hok']; subst.
+  pose proof (gstep_facts s g o Hs Hg Hle Ho) as Hstep. pose proof (gstep_below s g o Hs Hg Hb Ho) as Hb1.
+  destruct (gstep s g o) as [[s1 g1] d]. cbn [fst snd] in Hb1. destruct Hstep as (A1 & A2 & A3 & _).
+  specialize (IH s1 g1 A1 A2 Hb1 A3 Hok'). destruct (grun s1 g1 ops) as [[s2 g2] l]. exact IH.
 Qed.
 
 (** ---- all groups of a stream: CREATE, DESTROY and updates of one group ---- *)
@@ -1439,4 +1964,365 @@ Proof.
   - destruct ((5 <? nparts parts) && is_kw (nth_error parts 5) "MKSTREAM"); cbn [fst snd]; [|reflexivity].
     destruct (beq idb (bs "$")); [|destruct (beq idb (bs "0") || beq idb (bs "0-0")); [|destruct (sid_of_bytes idb); [|contradiction]]];
       cbn [amem alookup s_groups empty_stream fst snd is_error r_ok]; discriminate.
+Qed.
+
+(** ---- the invariants at the level of the database: every command of the family ---- *)
+Definition DbGInv (d : db) : Prop :=
+  forall k e s, get_entry d k = Some e -> e_val e = VStream s -> SInv s /\ groups_ok (s_groups s).
+Lemma DbGInv_empty : DbGInv empty_db.
+Proof. intros k e s H; discriminate. Qed.
+Lemma DbGInv_DbInv d : DbGInv d -> DbInv d.
+Proof. intros H k e s H1 H2. apply (H k e s H1 H2). Qed.
+Lemma DbGInv_put d k ex s : DbGInv d -> SInv s -> groups_ok (s_groups s) ->
+  DbGInv (put_entry d k {| e_val := VStream s; e_exp := ex |}).
+Proof.
+  intros Hd Hs Hg k' e' s'. rewrite get_put_entry. destruct (beq k' k); [|apply Hd].
+  intros Heq; inversion Heq; subst. cbn. intros Hv; inversion Hv; subst. auto.
+Qed.
+Lemma DbGInv_put_stream d k e s : DbGInv d -> SInv s -> groups_ok (s_groups s) -> DbGInv (put_stream d k e s).
+Proof. intros. unfold put_stream. apply DbGInv_put; assumption. Qed.
+Lemma DbGInv_put_group d k e s gn g : DbGInv d -> SInv s -> groups_ok (s_groups s) -> GInv g ->
+  DbGInv (put_group d k e s gn g).
+Proof.
+  intros Hd Hs Hgs Hg. unfold put_group. apply DbGInv_put_stream; [assumption|apply SInv_set_groups; assumption|].
+  cbn [set_groups s_groups]. apply groups_ok_update; assumption.
+Qed.
+Lemma DbGInv_eng_get now d k : DbGInv d -> DbGInv (snd (eng_get now d k)).
+Proof.
+  intros Hd. unfold eng_get. destruct (get_entry d k) as [e|]; [|exact Hd]. destruct (expired now e); [|exact Hd].
+  cbn [snd]. intros k' e' s'. unfold get_entry, index_del, del_entry. cbn [d_data]. rewrite alookup_aremove.
+  destruct (beq k' k); [discriminate|]. apply Hd.
+Qed.
+Lemma get_stream_facts now d k r d1 : DbGInv d -> get_stream now d k = (r, d1) ->
+  DbGInv d1 /\ forall e s, r = SStream e s -> SInv s /\ groups_ok (s_groups s) /\ raw_stream d1 k = SStream e s.
+Proof.
+  intros Hd. unfold get_stream. pose proof (DbGInv_eng_get now d k Hd) as Hd1.
+  unfold eng_get in *. destruct (get_entry d k) as [e0|] eqn:Eg.
+  - destruct (expired now e0).
+    + cbn [fst snd] in *. intros H; inversion H; subst. split; [assumption|]. intros e s Hc; discriminate.
+    + cbn [fst snd] in *. destruct (e_val e0) as [ | | | | |s0] eqn:Ev; intros H; inversion H; subst; (split; [assumption|]); intros e' s' Hc; try discriminate.
+      inversion Hc; subst. destruct (Hd k e' s' Eg Ev) as [H1 H2]. split; [assumption|]. split; [assumption|].
+      unfold raw_stream. rewrite Eg, Ev. reflexivity.
+  - cbn [fst snd]. intros H; inversion H; subst. split; [assumption|]. intros e s Hc; discriminate.
+Qed.
+
+Ltac gs_facts :=
+  repeat match goal with
+  | Hd : DbGInv ?d, H : get_stream _ ?d _ = (_, _) |- _ =>
+      let F1 := fresh "Hd1" in let F2 := fresh "Hst" in
+      destruct (get_stream_facts _ _ _ _ _ Hd H) as [F1 F2]; clear H;
+      try (destruct (F2 _ _ eq_refl) as (? & ? & ?))
+  end.
+Ltac grp_of :=
+  repeat match goal with
+  | Hgs : groups_ok ?gs, H : alookup ?gn ?gs = Some ?g |- _ =>
+      lazymatch goal with
+      | _ : GInv g |- _ => fail
+      | _ => pose proof (Hgs _ _ H)
+      end
+  end.
+
+Theorem xgroup_dbg now d parts : DbGInv d -> DbGInv (snd (h_xgroup now d parts)).
+Proof.
+  intros Hd. unfold h_xgroup, h_xgroup_create, h_xgroup_destroy, h_xgroup_createconsumer, h_xgroup_delconsumer, h_xgroup_setid.
+  repeat (first [ progress cbn [fst snd] | break_match ]); gs_facts; grp_of; try assumption.
+  all: try (apply DbGInv_put_group; try assumption).
+  all: try match goal with
+       | H : g_create_consumer ?g ?c = (_, ?g') |- GInv ?g' =>
+           replace g' with (snd (g_create_consumer g c)) by (rewrite H; reflexivity); apply create_consumer_ginv; assumption
+       | H : g_delete_consumer ?g ?c = (_, ?g') |- GInv ?g' =>
+           replace g' with (snd (g_delete_consumer g c)) by (rewrite H; reflexivity); apply delete_consumer_inv; assumption
+       | |- GInv (set_last _ _) => apply set_last_inv; assumption
+       end.
+  all: try (apply DbGInv_put_stream; [assumption | apply SInv_set_groups; assumption | cbn [set_groups s_groups]]).
+  all: try match goal with
+       | H : amem ?gn ?gs = false |- groups_ok (?gs ++ [(?gn, mk_group _)]) =>
+           apply groups_ok_create; [assumption | apply amem_alookup; exact H]
+       | |- groups_ok (aremove _ _) => apply groups_ok_destroy; assumption
+       end.
+  all: assert (Hmk : forall d0 k, DbGInv d0 -> DbGInv (set_value now d0 k (VStream empty_stream) None))
+         by (intros d0' k0 Hd0; unfold set_value; apply DbGInv_put; [exact Hd0 | exact SInv_empty | exact groups_ok_nil]).
+  all: try (apply Hmk; assumption).
+  apply DbGInv_put_stream; [apply Hmk; assumption | apply SInv_set_groups; exact SInv_empty | cbn [set_groups s_groups empty_stream app]].
+  apply (groups_ok_create [] _ _ groups_ok_nil eq_refl).
+Qed.
+
+Lemma raw_stream_facts d k e s : DbGInv d -> raw_stream d k = SStream e s -> SInv s /\ groups_ok (s_groups s).
+Proof.
+  intros Hd. unfold raw_stream. destruct (get_entry d k) as [e0|] eqn:E; [|discriminate].
+  destruct (e_val e0) eqn:Ev; try discriminate. intros Heq; inversion Heq; subst. eapply Hd; eassumption.
+Qed.
+
+(** XREADGROUP, whatever the ID: the group it reads satisfies the invariant afterwards *)
+Theorem read_group_ginv now s g c a count noack : SInv s -> GInv g ->
+  GInv (snd (st_read_group now s g c a count noack)).
+Proof.
+  intros Hs Hg. destruct (sid_eqb a sid_max) eqn:E.
+  - apply sid_eqb_eq in E. subst a. apply (read_new_inv now s g c count noack Hs Hg).
+  - apply (read_own_spec now s g c a count noack E Hg).
+Qed.
+
+Lemma resolve_dbg now gn : forall keys ids d acc, DbGInv d -> DbGInv (snd (xreadgroup_resolve now d gn keys ids acc)).
+Proof.
+  induction keys as [|kf keys IH]; intros ids d acc Hd; cbn [xreadgroup_resolve]; [exact Hd|].
+  destruct ids as [|idf ids]; [exact Hd|]. destruct kf; try exact Hd. destruct idf; try exact Hd.
+  destruct (get_stream now d b) as [r d1] eqn:Eg. destruct (get_stream_facts _ _ _ _ _ Hd Eg) as [Hd1 _].
+  destruct r; cbn [snd]; try exact Hd1; [|apply IH; exact Hd1].
+  repeat (first [ progress cbn [fst snd] | break_match ]); try exact Hd1. apply IH. exact Hd1.
+Qed.
+Lemma deliver_dbg now gn c o : forall reads d acc, DbGInv d -> DbGInv (snd (xreadgroup_deliver now d gn c o reads acc)).
+Proof.
+  induction reads as [|[k a] reads IH]; intros d acc Hd; cbn [xreadgroup_deliver].
+  - destruct acc; [destruct (ro_block o)|]; exact Hd.
+  - destruct (raw_stream d k) as [e s| |] eqn:Er; try (apply IH; exact Hd).
+    destruct (raw_stream_facts _ _ _ _ Hd Er) as [Hs Hgs].
+    destruct (alookup gn (s_groups s)) as [g|] eqn:Eg; [|exact Hd].
+    pose proof (read_group_ginv now s g c a (ro_count o) (ro_noack o) Hs (Hgs _ _ Eg)) as Hg'.
+    destruct (st_read_group now s g c a (ro_count o) (ro_noack o)) as [es g']. cbn [snd] in Hg'.
+    assert (Hput : DbGInv (put_group d k e s gn g')) by (apply DbGInv_put_group; assumption).
+    destruct es; [destruct (sid_eqb a sid_max)|]; apply IH; assumption.
+Qed.
+Theorem xreadgroup_dbg now d parts : DbGInv d -> DbGInv (snd (h_xreadgroup now d parts)).
+Proof.
+  intros Hd. unfold h_xreadgroup.
+  repeat (first [ progress cbn [fst snd] | break_match ]); try assumption.
+  - match goal with H : xreadgroup_resolve ?now ?d ?gn ?ks ?is ?acc = (_, ?d1) |- DbGInv ?d1 =>
+      replace d1 with (snd (xreadgroup_resolve now d gn ks is acc)) by (rewrite H; reflexivity); apply resolve_dbg; assumption end.
+  - apply deliver_dbg.
+    match goal with H : xreadgroup_resolve ?now ?d ?gn ?ks ?is ?acc = (_, ?d1) |- DbGInv ?d1 =>
+      replace d1 with (snd (xreadgroup_resolve now d gn ks is acc)) by (rewrite H; reflexivity); apply resolve_dbg; assumption end.
+Qed.
+
+Theorem xack_dbg now d parts : DbGInv d -> DbGInv (snd (h_xack now d parts)).
+Proof.
+  intros Hd. unfold h_xack.
+  repeat (first [ progress cbn [fst snd] | break_match ]); gs_facts; grp_of; try assumption.
+  apply DbGInv_put_group; try assumption.
+  match goal with H : g_acknowledge ?g ?ids = (_, ?g') |- GInv ?g' =>
+    replace g' with (snd (g_acknowledge g ids)) by (rewrite H; reflexivity); apply acknowledge_inv; assumption end.
+Qed.
+Theorem xclaim_dbg now d parts : DbGInv d -> DbGInv (snd (h_xclaim now d parts)).
+Proof.
+  intros Hd. unfold h_xclaim.
+  repeat (first [ progress cbn [fst snd] | break_match ]); gs_facts; grp_of; try assumption.
+  all: apply DbGInv_put_group; try assumption.
+  all: match goal with H : g_claim ?now ?g ?c ?mi ?ids ?f = (_, ?g') |- GInv ?g' =>
+    replace g' with (snd (g_claim now g c mi ids f)) by (rewrite H; reflexivity); apply claim_inv; assumption end.
+Qed.
+Theorem xpending_dbg now d parts : DbGInv d -> DbGInv (snd (h_xpending now d parts)).
+Proof.
+  intros Hd. unfold h_xpending.
+  repeat (first [ progress cbn [fst snd] | break_match ]); gs_facts; try assumption.
+Qed.
+Theorem xinfo_dbg now d parts : DbGInv d -> DbGInv (snd (h_xinfo now d parts)).
+Proof.
+  intros Hd. unfold h_xinfo.
+  repeat (first [ progress cbn [fst snd] | break_match ]); gs_facts; try assumption.
+Qed.
+
+(** the commands that change entries do not touch the groups *)
+Lemma add_auto_groups now s f id s' : st_add_auto now s f = Some (id, s') -> s_groups s' = s_groups s.
+Proof. unfold st_add_auto. destruct (gen_next now s) as [[[i ms] sq]|]; [|discriminate]. intros H; inversion H; reflexivity. Qed.
+Lemma add_with_id_groups s id f s' : st_add_with_id s id f = Some s' -> s_groups s' = s_groups s.
+Proof.
+  unfold st_add_with_id. destruct (sid_leb id (s_last s)); [discriminate|]. destruct (has_id id (s_entries s)); [discriminate|].
+  intros H; inversion H; reflexivity.
+Qed.
+Lemma delete_groups s ids : s_groups (snd (st_delete s ids)) = s_groups s.
+Proof. unfold st_delete. destruct (0 <? _); reflexivity. Qed.
+Lemma trim_groups s n : s_groups (snd (st_trim s n)) = s_groups s.
+Proof. unfold st_trim. destruct (len (s_entries s) <=? n); reflexivity. Qed.
+
+Ltac rs_facts Hd :=
+  repeat match goal with
+  | H : raw_stream _ _ = SStream _ _ |- _ =>
+      let F1 := fresh "Hs" in let F2 := fresh "Hgs" in
+      destruct (raw_stream_facts _ _ _ _ Hd H) as [F1 F2]; clear H
+  end.
+
+Theorem xadd_dbg d parts oracle : DbGInv d -> DbGInv (snd (h_xadd d parts oracle)).
+Proof.
+  intros Hd. unfold h_xadd.
+  repeat (first [ progress cbn [fst snd] | break_match ]); try assumption; rs_facts Hd.
+  all: first [ apply DbGInv_put_stream; [assumption| |] | unfold new_entry; apply DbGInv_put; [assumption| |] ].
+  all: try match goal with
+       | H : st_add_auto _ _ _ = Some _, Hs : SInv _ |- SInv _ => apply (add_auto_inv _ _ _ _ _ Hs H)
+       | H : st_add_auto _ empty_stream _ = Some _ |- SInv _ => apply (add_auto_inv _ _ _ _ _ SInv_empty H)
+       | H : st_add_with_id _ _ _ = Some _, Hs : SInv _ |- SInv _ => apply (add_with_id_inv _ _ _ _ Hs H)
+       | H : st_add_with_id empty_stream _ _ = Some _ |- SInv _ => apply (add_with_id_inv _ _ _ _ SInv_empty H)
+       | H : st_add_auto _ _ _ = Some _ |- groups_ok _ => rewrite (add_auto_groups _ _ _ _ _ H); first [assumption | exact groups_ok_nil]
+       | H : st_add_with_id _ _ _ = Some _ |- groups_ok _ => rewrite (add_with_id_groups _ _ _ _ H); first [assumption | exact groups_ok_nil]
+       end.
+Qed.
+Theorem xdel_dbg d parts : DbGInv d -> DbGInv (snd (h_xdel d parts)).
+Proof.
+  intros Hd. unfold h_xdel.
+  repeat (first [ progress cbn [fst snd] | break_match ]); try assumption; rs_facts Hd.
+  all: apply DbGInv_put_stream; [assumption| |].
+  all: match goal with
+       | H : st_delete ?s ?ids = (_, ?s'), Hs : SInv ?s |- SInv ?s' =>
+           let K := fresh in pose proof (delete_inv s ids Hs) as K; rewrite H in K; apply K
+       | H : st_delete ?s ?ids = (_, ?s') |- groups_ok (s_groups ?s') =>
+           replace s' with (snd (st_delete s ids)) by (rewrite H; reflexivity); rewrite delete_groups; assumption
+       end.
+Qed.
+Theorem xtrim_dbg d parts : DbGInv d -> DbGInv (snd (h_xtrim d parts)).
+Proof.
+  intros Hd. unfold h_xtrim.
+  repeat (first [ progress cbn [fst snd] | break_match ]); try assumption; rs_facts Hd.
+  all: apply DbGInv_put_stream; [assumption| |].
+  all: match goal with
+       | H : st_trim ?s ?n = (_, ?s'), Hs : SInv ?s, Hm : xtrim_maxlen _ = Some ?n |- SInv ?s' =>
+           let K2 := fresh in
+           pose proof (trim_inv s n Hs (xtrim_maxlen_nonneg _ _ Hm)) as K2; rewrite H in K2; apply K2
+       | H : st_trim ?s ?n = (_, ?s') |- groups_ok (s_groups ?s') =>
+           replace s' with (snd (st_trim s n)) by (rewrite H; reflexivity); rewrite trim_groups; assumption
+       end.
+Qed.
+
+(** Every command of the stream family, with every argument list, at every time, keeps
+    the stream invariant of every stream and the agreement invariant of every group of
+    every stream in the database - XGROUP SETID to any ID, explicit-ID reads, re-delivery
+    after SETID and failing commands included. *)
+Theorem exec_streams_dbg now d name parts oracle r d' : DbGInv d ->
+  exec_streams now d name parts oracle = Some (r, d') -> DbGInv d'.
+Proof.
+  intros Hd. unfold exec_streams.
+  pose proof (xreads_pure d parts) as (P1 & P2 & P3 & P4).
+  repeat match goal with |- context [if beq name ?x then _ else _] => destruct (beq name x) end;
+    intros H; try discriminate; injection H as H; apply (f_equal snd) in H; cbn [snd] in H; subst d'.
+  - apply xadd_dbg; assumption.
+  - rewrite P1; assumption.
+  - rewrite P2; assumption.
+  - rewrite P3; assumption.
+  - rewrite P4; assumption.
+  - apply xtrim_dbg; assumption.
+  - apply xdel_dbg; assumption.
+  - apply xgroup_dbg; assumption.
+  - apply xreadgroup_dbg; assumption.
+  - apply xack_dbg; assumption.
+  - apply xclaim_dbg; assumption.
+  - apply xpending_dbg; assumption.
+  - apply xinfo_dbg; assumption.
+Qed.
+(** ... hence along every history of commands (scripts as in the witnesses) *)
+Theorem run_cmds_dbg now : forall cs d, DbGInv d -> DbGInv (snd (run_cmds now d cs)).
+Proof.
+  induction cs as [|c cs IH]; intros d Hd; cbn [run_cmds]; [exact Hd|].
+  destruct c as [|[] ?]; try exact Hd.
+  destruct (exec_streams now d (upper b) (FBulk b :: c) None) as [[f d1]|] eqn:E; [|exact Hd].
+  pose proof (exec_streams_dbg _ _ _ _ _ _ _ Hd E) as Hd1. specialize (IH d1 Hd1).
+  destruct (run_cmds now d1 cs). exact IH.
+Qed.
+
+(** ---- failure atomicity of XREADGROUP (after the repair 3384736) ---- *)
+(** what storage.get does to the keys it visits: an expired key is removed *)
+Definition expire_keys (now : Z) (ks : list bytes) (d : db) : db :=
+  fold_left (fun d k => snd (eng_get now d k)) ks d.
+Lemma get_stream_snd now d k : snd (get_stream now d k) = snd (eng_get now d k).
+Proof. unfold get_stream. destruct (eng_get now d k) as [[[]| |] d1]; reflexivity. Qed.
+
+(** a resolved read: the key holds a stream that is not expired and has the group *)
+Definition resolved (now : Z) (gn : bytes) (d : db) (k : bytes) : Prop :=
+  exists e s, get_entry d k = Some e /\ expired now e = false /\ e_val e = VStream s /\ alookup gn (s_groups s) <> None.
+Lemma resolved_eng_get now gn d k k' : resolved now gn d k -> resolved now gn (snd (eng_get now d k')) k.
+Proof.
+  intros (e & s & H1 & H2 & H3 & H4). unfold eng_get. destruct (get_entry d k') as [e'|] eqn:E; [|exists e, s; auto].
+  destruct (expired now e') eqn:Ex; [|exists e, s; auto]. cbn [snd].
+  exists e, s. split; [|auto]. unfold get_entry, index_del, del_entry. cbn [d_data]. rewrite alookup_aremove.
+  destruct (beq k k') eqn:Eb; [|exact H1]. apply beq_eq in Eb. subst k'. unfold get_entry in *. congruence.
+Qed.
+Lemma resolved_put_group now gn d k e s g k' :
+  get_entry d k = Some e -> resolved now gn d k' -> resolved now gn (put_group d k e s gn g) k'.
+Proof.
+  intros He (e' & s' & H1 & H2 & H3 & H4). unfold put_group, put_stream, resolved. setoid_rewrite get_put_entry.
+  destruct (beq k' k) eqn:Eb; [|exists e', s'; auto].
+  apply beq_eq in Eb. subst k'. assert (e' = e) by congruence. subst e'.
+  eexists _, _. split; [reflexivity|]. split; [exact H2|]. split; [reflexivity|].
+  cbn [set_groups s_groups]. rewrite alookup_aput, beq_refl. discriminate.
+Qed.
+
+Lemma resolve_facts now gn : forall keys ids d acc r d1,
+  Forall (fun ka => resolved now gn d (fst ka)) acc ->
+  xreadgroup_resolve now d gn keys ids acc = (r, d1) ->
+  (exists ks, d1 = expire_keys now ks d) /\
+  (forall reads, r = inr reads -> Forall (fun ka => resolved now gn d1 (fst ka)) reads).
+Proof.
+  induction keys as [|kf keys IH]; intros ids d acc r d1 Hacc; cbn [xreadgroup_resolve].
+  - intros H; inversion H; subst. split; [exists []; reflexivity|]. intros reads Hr; inversion Hr; subst. exact Hacc.
+  - destruct ids as [|idf ids].
+    { intros H; inversion H; subst. split; [exists []; reflexivity|]. intros reads Hr; inversion Hr; subst. exact Hacc. }
+    destruct kf as [ | | |k| | | | | | | | | ]; try (intros H; inversion H; subst; split; [exists []; reflexivity | intros ? Hr; discriminate]).
+    destruct idf as [ | | |ib| | | | | | | | | ]; try (intros H; inversion H; subst; split; [exists []; reflexivity | intros ? Hr; discriminate]).
+    pose proof (get_stream_snd now d k) as Hsnd.
+    assert (Hacc1 : Forall (fun ka => resolved now gn (snd (eng_get now d k)) (fst ka)) acc).
+    { eapply Forall_impl; [|exact Hacc]. intros ka Hka. apply resolved_eng_get. exact Hka. }
+    assert (Hone : exists ks, snd (eng_get now d k) = expire_keys now ks d) by (exists [k]; reflexivity).
+    assert (Hchain : forall ks d2, d2 = expire_keys now ks (snd (eng_get now d k)) -> exists ks', d2 = expire_keys now ks' d).
+    { intros ks d2 ->. exists (k :: ks). reflexivity. }
+    destruct (get_stream now d k) as [res d0] eqn:Eg. cbn [snd] in Hsnd. subst d0.
+    destruct res as [e s| |].
+    + (* the key holds a live stream: the database is unchanged *)
+      assert (Hlive : get_entry d k = Some e /\ expired now e = false /\ e_val e = VStream s /\ snd (eng_get now d k) = d).
+      { unfold get_stream, eng_get in *. destruct (get_entry d k) as [e0|] eqn:Ee; [|discriminate].
+        destruct (expired now e0) eqn:Ex; [discriminate|]. cbn [fst snd] in *. destruct (e_val e0) eqn:Ev; try discriminate.
+        inversion Eg; subst. auto. }
+      destruct Hlive as (L1 & L2 & L3 & L4).
+      destruct (if beq ib (bs ">") then Some sid_max
+                else if beq ib (bs "0") || beq ib (bs "0-0") then Some sid_zero else sid_of_bytes ib) as [a|].
+      2:{ intros H; inversion H; subst. split; [exact Hone | intros ? Hr; discriminate]. }
+      destruct (alookup gn (s_groups s)) as [g|] eqn:Egn.
+      2:{ intros H; inversion H; subst. split; [exact Hone | intros ? Hr; discriminate]. }
+      intros H. apply IH in H.
+      * destruct H as [[ks Hks] Hr]. split; [eapply Hchain; exact Hks | exact Hr].
+      * apply Forall_app. split; [exact Hacc1|]. constructor; [|constructor]. cbn [fst]. rewrite L4.
+        exists e, s. rewrite Egn. repeat split; auto. discriminate.
+    + intros H. apply IH in H; [|exact Hacc1].
+      destruct H as [[ks Hks] Hr]. split; [eapply Hchain; exact Hks | exact Hr].
+    + intros H; inversion H; subst. split; [exact Hone | intros ? Hr; discriminate].
+Qed.
+
+Lemma deliver_no_error now gn c o : forall reads d acc,
+  Forall (fun ka => resolved now gn d (fst ka)) reads ->
+  is_error (fst (xreadgroup_deliver now d gn c o reads acc)) = false.
+Proof.
+  induction reads as [|[k a] reads IH]; intros d acc Hres; cbn [xreadgroup_deliver].
+  - destruct acc; [destruct (ro_block o)|]; reflexivity.
+  - inversion Hres as [|? ? Hk Hrest]; subst. cbn [fst] in Hk. destruct Hk as (e & s & H1 & H2 & H3 & H4).
+    unfold raw_stream. rewrite H1, H3. destruct (alookup gn (s_groups s)) as [g|] eqn:Eg; [|contradiction].
+    assert (Hnext : forall g', Forall (fun ka => resolved now gn (put_group d k e s gn g') (fst ka)) reads).
+    { intros g'. eapply Forall_impl; [|exact Hrest]. intros ka Hka. apply resolved_put_group; assumption. }
+    destruct (st_read_group now s g c a (ro_count o) (ro_noack o)) as [es g'].
+    destruct es; [destruct (sid_eqb a sid_max)|]; apply IH; auto.
+Qed.
+
+(** A failing XREADGROUP - whichever key, ID or group of a multi-key command is the
+    offending one - changes no stream and no group: the database afterwards is the
+    database before, minus the expired keys that storage.get removed on the way *)
+Theorem xreadgroup_error_atomic now d parts :
+  is_error (fst (h_xreadgroup now d parts)) = true ->
+  exists ks, snd (h_xreadgroup now d parts) = expire_keys now ks d.
+Proof.
+  unfold h_xreadgroup.
+  assert (Hsame : forall x : frame, exists ks, snd (x, d) = expire_keys now ks d) by (intros x; exists []; reflexivity).
+  destruct (nparts parts <? 6); [intros _; apply (Hsame r_err)|].
+  destruct (negb (is_kw (nth_error parts 1) "GROUP")); [intros _; apply (Hsame r_err)|].
+  destruct (nth_arg parts 2) as [gn|]; [|intros _; apply (Hsame r_err)].
+  destruct (nth_arg parts 3) as [c|]; [|intros _; apply (Hsame r_err)].
+  destruct (scan_ropts _ _ _ _) as [o rest|]; [|intros _; apply (Hsame r_err)].
+  destruct (negb (len rest mod 2 =? 0)); [intros _; apply (Hsame r_err)|].
+  destruct (xreadgroup_resolve now d gn (firstn (Z.to_nat (len rest / 2)) rest) (skipn (Z.to_nat (len rest / 2)) rest) [])
+    as [[err|reads] d1] eqn:E.
+  - intros _. cbn [snd]. apply (resolve_facts now gn _ _ _ _ _ _ (Forall_nil _) E).
+  - destruct (resolve_facts now gn _ _ _ _ _ _ (Forall_nil _) E) as [_ Hr]. specialize (Hr reads eq_refl).
+    rewrite (deliver_no_error now gn c o reads d1 [] Hr). discriminate.
+Qed.
+Theorem xreadgroup_error_no_effect now d parts :
+  (forall k e, get_entry d k = Some e -> expired now e = false) ->
+  is_error (fst (h_xreadgroup now d parts)) = true -> snd (h_xreadgroup now d parts) = d.
+Proof.
+  intros Hne Herr. destruct (xreadgroup_error_atomic now d parts Herr) as [ks ->].
+  unfold expire_keys. induction ks as [|k ks IH]; cbn [fold_left]; [reflexivity|].
+  assert (snd (eng_get now d k) = d) as ->; [|exact IH].
+  unfold eng_get. destruct (get_entry d k) as [e|] eqn:E; [|reflexivity]. rewrite (Hne k e E). reflexivity.
 Qed.
